@@ -54,7 +54,12 @@ Definition parse_op (l : list tok) : option op :=
         match parse_obj r with
         | Some (o, [e; d; s; ok]) =>
             match tok_nat e, tok_nat d, tok_nat s, tok_bool ok with
-            | Some e', Some d', Some s', Some ok' => Some (OCas (is_tag "casw" k) o e' d' s' ok')
+            | Some e', Some d', Some s', Some ok' =>
+                (* compare_exchange_strong refines compare_exchange_weak: every behaviour of a strong CAS is a behaviour of a
+                   weak one that does not fail spuriously, so a "cass" event is read as that weak CAS with the same operands
+                   and result - except a strong CAS that fails although it saw the expected value, which no real strong CAS
+                   does: that one keeps its own kind and is rejected wherever the model has a weak CAS *)
+                Some (OCas (is_tag "casw" k || negb (negb ok' && Nat.eqb e' s')) o e' d' s' ok')
             | _, _, _, _ => None end
         | _ => None end
       else if is_tag "fadd" k then
